@@ -350,6 +350,7 @@ def run(ctx):
         "modules use the exact routing queries only, never `_approx` (R1, who-may-call); in every body that asks the provider for both distance and duration "
         "(and cost) of a leg the canonical (from, to, departure) expressions agree (L1); place tags are paired with the place position by an enumerate() that no "
         "element-dropping adapter precedes (G1, decided on the adapter type).")
+    ctx.explanation += ' The reported tag is looked up for the place that was used (G2); provider durations scaled by the profile (C16-F1) and legs queried in travel direction (C01-D1) are shared rules evaluated here because their files are C03 anchors.'
     ctx.not_decided = "equality up to rounding with an independent replay of the tour; load profiles; tag lookup on the writer side; time-point vs duration arithmetic."
     ctx.assumptions += ["parameter/local names distance/duration/waiting/... and the Costs field names act as unit declarations; unknown units are silent"]
     ctx.run("C03-H1", "Statistic::add is a field-wise sum over all fields; overall statistic = fold over tours", h1_statistic_sum, floor=10)
